@@ -53,7 +53,10 @@ func (t *c09Tool) InvokableRun(ctx context.Context, args string, opts ...tool.Op
 	return "r(" + args + ")", nil
 }
 
-func c09Agent(direct bool, spareInput bool) {
+func c09Agent(direct bool, spareInput bool) { c09AgentS(direct, spareInput, false) }
+
+// shared: both callers pass the very same input slice (read-only for the framework)
+func c09AgentS(direct bool, spareInput bool, shared bool) {
 	ctx := context.Background()
 	vcfg("delaybound", 1+vtier())
 	vcfg("race", 1)
@@ -65,7 +68,11 @@ func c09Agent(direct bool, spareInput bool) {
 	}
 	ag, err := NewAgent(ctx, cfg)
 	vassert(err == nil, "agent is created")
+	sharedIn := append(make([]*schema.Message, 0, 8), schema.UserMessage("A"))
 	mkInput := func(who string) []*schema.Message {
+		if shared {
+			return sharedIn
+		}
 		if spareInput {
 			in := make([]*schema.Message, 0, 8) // a conversation buffer with spare capacity
 			return append(in, schema.UserMessage(who))
@@ -100,13 +107,21 @@ func c09Agent(direct bool, spareInput bool) {
 		}
 		return ag.Generate(ctx, mkInput(who))
 	}
-	go func() { o2, e2 = call("B") }()
+	second := "B"
+	if shared {
+		second = "A"
+	}
+	go func() { o2, e2 = call(second) }()
 	o1, e1 := call("A")
 	vquiesce()
 	vassert(e1 == nil && e2 == nil, "both concurrent agent runs succeed")
 	vassert(o1 != nil && o1.Content == want("A"), "run A answers from its own conversation only")
-	vassert(o2 != nil && o2.Content == want("B"), "run B answers from its own conversation only")
+	vassert(o2 != nil && o2.Content == want(second), "run B answers from its own conversation only")
+	if shared {
+		vassert(len(sharedIn) == 1 && sharedIn[0].Content == "A", "the caller's input slice is not modified")
+	}
 }
 
 func VerifC09Agent()        { c09Agent(false, vchoose("spare", 2) == 1) }
 func VerifC09AgentDirect()  { c09Agent(true, false) }
+func VerifC09AgentSharedInput() { c09AgentS(false, true, true) }
